@@ -11,18 +11,18 @@ open Rosmar Rosmar.Sql
 /-! ### Backfill: `cas >= start`, in CAS order -/
 
 theorem tie_backfill_pred (cid : Nat) (k : String) (r : Row) (start : Nat) :
-    Collection_enqueueBackfillEvents_WHERE_0.selects (env [("$where.collection", .int cid), ("$where.cas", .int start)]) (enc cid k r)
+    sel_by_casGe_collection__order_cas.selects (env [("$where.collection", .int cid), ("$where.cas", .int start)]) (enc cid k r)
       = decide (r.cas ≥ start) := by
   by_cases h : start ≤ r.cas <;>
-  simp [Collection_enqueueBackfillEvents_WHERE_0, Select.selects, E.eval, SRow.get, env, enc, ofBool, SV.truthy, SV.same, h]
+  simp [sel_by_casGe_collection__order_cas, Select.selects, E.eval, SRow.get, env, enc, ofBool, SV.truthy, SV.same, h]
 
-theorem tie_backfill_order : Collection_enqueueBackfillEvents_WHERE_0.orderBy = [.cas] := by decide
+theorem tie_backfill_order : sel_by_casGe_collection__order_cas.orderBy = [.cas] := by decide
 
 /-- The model's backfill reads exactly the rows the regenerated statement selects, sorted by the column it orders by. -/
 theorem tie_backfillRows (cid : Nat) (docs : Docs) (start : Nat) :
     backfillRows docs start
       = sortByCas (docs.filter (fun d =>
-          Collection_enqueueBackfillEvents_WHERE_0.selects (env [("$where.collection", .int cid), ("$where.cas", .int start)]) (enc cid d.1 d.2))) := by
+          sel_by_casGe_collection__order_cas.selects (env [("$where.collection", .int cid), ("$where.cas", .int start)]) (enc cid d.1 d.2))) := by
   unfold backfillRows
   congr 1
   apply List.filter_congr
